@@ -1,0 +1,44 @@
+//go:build verif
+
+// Package verifhook provides instrumentation points for the external
+// verification harness. With the "verif" build tag the points dispatch to a
+// handler installed by the harness (none installed = no-op).
+package verifhook
+
+import "sync/atomic"
+
+// Enabled reports whether the instrumentation is compiled in.
+const Enabled = true
+
+// Handler receives (kind, name); kind is one of "point", "lockwait",
+// "lockheld", "lockfree".
+type Handler func(kind, name string)
+
+var handler atomic.Pointer[Handler]
+
+// SetHandler installs (or with nil removes) the process-wide handler.
+func SetHandler(h Handler) {
+	if h == nil {
+		handler.Store(nil)
+		return
+	}
+	handler.Store(&h)
+}
+
+func dispatch(kind, name string) {
+	if h := handler.Load(); h != nil {
+		(*h)(kind, name)
+	}
+}
+
+// Point marks a named boundary between two persistence / delivery steps.
+func Point(name string) { dispatch("point", name) }
+
+// LockWait marks that the caller is about to block on the named lock.
+func LockWait(name string) { dispatch("lockwait", name) }
+
+// LockHeld marks that the caller has acquired the named lock.
+func LockHeld(name string) { dispatch("lockheld", name) }
+
+// LockFree marks that the caller has released the named lock.
+func LockFree(name string) { dispatch("lockfree", name) }
